@@ -15,7 +15,7 @@ Requirements for the change:
 1. A small source change to NON-test .go files (a plausible maintenance edit / refactoring slip, 1-15 lines) that makes the property false.
 2. The project must still compile (`go build ./...`) and the EXISTING test suite must still pass: run `go test -vet=off -count=1 ./...` in {wt} before and after (the test `ExampleNew` in the root package fails even without any change because there is no network — ignore that one only).
 3. The breakage must need something SPECIFIC to manifest — a particular interleaving, a fault or cancellation at a particular point, a multi-step sequence of operations, an unusual input or pre-existing state, a particular option combination, or two cooperating sites that each look fine alone — NOT something ordinary use would expose at once.
-4. Write a demonstration: a Go test file that FAILS with your change and PASSES without it (verify both, e.g. with `git stash`), showing the property violation on the real code. The repository's own tests show how to set up an in-memory registry (github.com/olareg/olareg behind httptest, with testdata/ as a store) and OCI layouts in temp dirs; wrap the registry handler in your own http.Handler to inject faults, latencies or to record requests.
+4. Write a demonstration: a Go test file that FAILS with your change and PASSES without it (verify both, e.g. with `git apply -R _seed/patch.diff` and `git apply _seed/patch.diff` - do NOT use `git stash`, the stash is shared with other worktrees), showing the property violation on the real code. The repository's own tests show how to set up an in-memory registry (github.com/olareg/olareg behind httptest, with testdata/ as a store) and OCI layouts in temp dirs; wrap the registry handler in your own http.Handler to inject faults, latencies or to record requests.
 
 Deliverables, all under {wt}/_seed/ :
 - patch.diff : `git diff` of the non-test source change only (must apply with `git apply` to a clean checkout).
